@@ -368,6 +368,56 @@ def runSystem (lib : Lib) (mods muts : List Request) (mols : List Mol) : Result 
   | some e => { mols := st.mols, reports := [], err := some e }
   | none => { mols := st.mols, reports := report st.counts, err := none }
 
+/-! ### a processor object that is used more than once
+
+`AnnotateMutMod` keeps the bookkeeping list on the object (`self.resspec_counts`).  `run_system`
+starts by emptying it (fix ed8f8af); `run_molecule` appends to whatever is there. -/
+
+structure Proc where
+  mods   : List Request
+  muts   : List Request
+  counts : List Count
+  deriving Repr, Inhabited
+
+inductive Op where
+  | system (mols : List Mol)
+  | molecule (m : Mol)
+  deriving Repr, Inhabited
+
+inductive OpResult where
+  | system (r : Result)
+  | molecule (atoms : List Atom) (err : Option Err)
+  deriving Repr, Inhabited
+
+def resultOf (st : SysState) : Result :=
+  match st.err with
+  | some e => { mols := st.mols, reports := [], err := some e }
+  | none => { mols := st.mols, reports := report st.counts, err := none }
+
+/-- one call on the processor; `reset = true` is the code as fixed, `false` the code before
+ed8f8af (the list is never emptied) -/
+def procStepGen (reset : Bool) (lib : Lib) (p : Proc) : Op → Proc × OpResult
+  | .system mols =>
+    let st := runMols lib p.mods p.muts mols (if reset then [] else p.counts)
+    ({ p with counts := st.counts }, .system (resultOf st))
+  | .molecule m =>
+    let st := annotateMol lib p.mods p.muts m p.counts
+    ({ p with counts := st.counts }, .molecule st.atoms st.err)
+
+def procStep := procStepGen true
+
+def runHistoryGen (reset : Bool) (lib : Lib) : Proc → List Op → List OpResult
+  | _, [] => []
+  | p, op :: rest =>
+    let r := procStepGen reset lib p op
+    r.2 :: runHistoryGen reset lib r.1 rest
+
+def runHistory := runHistoryGen true
+
+/-- what a freshly constructed processor with the same requests answers -/
+def freshApply (lib : Lib) (mods muts : List Request) (op : Op) : OpResult :=
+  (procStep lib { mods := mods, muts := muts, counts := [] } op).2
+
 /-! ### the constructor: parsing the request strings -/
 
 /-- `AnnotateMutMod.__init__`: every specification string is parsed; the first one that
